@@ -43,7 +43,7 @@ def main():
         if rc != 0:
             # the fault was written against the pinned commit; a later fix: commit touches the same lines.
             # Confirm it on the pinned commit instead (the checker is then run on that tree too).
-            sh("git checkout -q --detach 0a08c93", wt)
+            sh("git checkout -- . ; git reset -q --hard; git clean -fdq; git checkout -q --detach 0a08c93", wt)
             rc, out = sh(f"git apply {patch}", wt)
             if rc != 0:
                 res["applies"] = False
@@ -103,28 +103,33 @@ def main():
             break
     res["suite_passes_with_patch"] = suite_ok
     res["suite_tries"] = tries
-    # checker on the patched tree
+    # checker on the patched tree: new failing obligations relative to the same tree without the patch
+    def failing(tree):
+        rules = subprocess.run("/verif/bin/bpmnlint -inventory rules 2>/dev/null | awk '{print $1}' | tr '\\n' ','", shell=True, capture_output=True, text=True, env=ENV).stdout.strip(",")
+        o = subprocess.run(["/verif/bin/bpmnlint", "-json", "-no-known", "-repo", tree, "-rules", rules], capture_output=True, text=True, env=ENV).stdout
+        d = {}
+        for line in o.splitlines():
+            if line.startswith("{"):
+                ob = json.loads(line)
+                d[ob["key"]] = ob
+        return d
+    after = failing(wt)
+    sh("git diff > /tmp/confirm_%s.diff && git checkout -- . && git clean -fdq" % name, wt)
+    before = failing(wt)
+    sh("git apply /tmp/confirm_%s.diff" % name, wt)
+    newkeys = {k: v for k, v in after.items() if k not in before}
+    prules = {}
+    for line in subprocess.run("/verif/bin/bpmnlint -inventory props 2>/dev/null", shell=True, capture_output=True, text=True, env=ENV).stdout.splitlines():
+        if line.startswith("C"):
+            pid, rl = line.split(" ", 1)
+            prules[pid] = [r.split("[")[0] for r in rl.split(",")]
     det = {}
-    props = [c["property_id"] for c in json.load(open("/verif/MANIFEST.json"))["checks"]]
-    ev = f"/tmp/confirm_ev_{name}"
-    os.makedirs(ev, exist_ok=True)
-    procs = {}
-    for p in props:
-        procs[p] = subprocess.Popen(["/verif/bin/bpmnlint", "-property", p, "-tier", "quick", "-repo", wt, "-verif", "/verif", "-evidence", ev],
-                                    stdout=subprocess.PIPE, stderr=subprocess.PIPE, text=True, env=ENV)
-        if len([q for q in procs.values() if q.poll() is None]) >= 8:
-            time.sleep(1.5)
-    for p, pr in procs.items():
-        o, e = pr.communicate()
-        if pr.returncode != 0:
-            viol = []
-            for line in e.splitlines():
-                mm = re.match(r"^%s: (\S+): (.*)" % p, line)
-                if mm:
-                    viol.append(mm.group(1) + ": " + mm.group(2)[:160])
-            det[p] = {"rc": pr.returncode, "violations": viol[:6]}
-    shutil.rmtree(ev, ignore_errors=True)
+    for k, ob in newkeys.items():
+        for pid, rl in prules.items():
+            if ob["rule"] in rl:
+                det.setdefault(pid, {"rc": 1, "violations": []})["violations"].append(ob["rule"] + ": " + ob["what"][:150] + " [" + ob["pos"] + "]")
     res["detected_by"] = det
+    res["new_failing_keys"] = sorted(newkeys)
     # revert and run demo on the clean tree
     sh("git checkout -- . && git clean -fdq", wt)
     shutil.copy(demo_src, demo_dst)
